@@ -168,8 +168,9 @@ func TestVerifC08(t *testing.T) {
 		o := optsFor(sc, seed)
 		o.NIdent = 10 + sc%3*5
 		w := NewWorld(o)
-		if err := w.Prologue(); err != nil {
-			t.Fatal(err)
+		if !startScenario(w, rep, false) {
+			w.Cleanup()
+			continue
 		}
 		s := NewScenario(w, verifutil.NewRng(seed, 8))
 		s.Hostile, s.MaxTxs = 10, 5
